@@ -187,12 +187,14 @@ def run_impl(ops):
         results.extend(lines[:len(rest)])
         if len(lines) >= len(rest):
             break
-        # op number len(lines) killed the process
-        results.append('HANG' if status == 'TIMEOUT' else 'CRASH')
+        # op number len(lines) killed the process (exit code 3 = the harness' own watchdog: the op hung)
+        hung = status == 'TIMEOUT' or status.startswith('exit 3')
+        results.append('HANG' if hung else 'CRASH')
         rest = rest[len(lines) + 1:]
         guard += 1
-        if guard > 50:
-            results.extend(['CRASH'] * len(rest))
+        if guard > 40:
+            # too many ops kill the harness: the remaining ones are not run (they count as not answered)
+            results.extend(['HANG' if hung else 'CRASH'] * len(rest))
             break
     return results
 
@@ -301,4 +303,38 @@ def corpus_ops(prop):
                     line = line.rstrip('\n')
                     if line and not line.startswith('//'):
                         out.append((fn, line))
+    return out
+
+
+def refused_interfaces(build_log: str):
+    """Interfaces of ifaces.txt whose expansion panicked inside the attribute macro (from the cargo log):
+    list of {'iface', 'declarations', 'message'}."""
+    out = []
+    gen = os.path.join(HARNESS, 'src', 'gen.rs')
+    if 'custom attribute panicked' not in build_log or not os.path.exists(gen):
+        return out
+    lines = open(gen).read().split('\n')
+    mods = []   # (line number, name)
+    for i, l in enumerate(lines, 1):
+        m = re.match(r'\s*(?:pub\s+)?mod\s+m_([a-z0-9_]+)', l)
+        if m:
+            mods.append((i, m.group(1)))
+    decls = {}
+    cur = None
+    for l in open(IFACES):
+        t = l.split()
+        if t and t[0] == 'IFACE':
+            cur = t[1]; decls[cur] = []
+        elif t and t[0] == 'DECL' and cur:
+            decls[cur].append(bytes.fromhex(t[2]).decode())
+    seen = set()
+    for m in re.finditer(r'custom attribute panicked[\s\S]{0,400}?src/gen\.rs:(\d+)[\s\S]{0,600}?message: ([^\n]*)', build_log):
+        ln = int(m.group(1))
+        name = None
+        for (start, nm) in mods:
+            if start <= ln:
+                name = nm
+        if name and name not in seen:
+            seen.add(name)
+            out.append({'iface': name, 'declarations': decls.get(name, []), 'message': m.group(2).strip()})
     return out
